@@ -276,6 +276,19 @@ def table_key(T):
     return (T.rows, T.cols, repr(T.cells))
 
 
+def apply_switches(I, cfg, nums, sd):
+    # switches: common string switch (see known finding), per-number file switches
+    smap = cfg.get("string_on_map")  # only in the registered known-finding replay (DESIGN 9.1)
+    for n in set(nums) | {cfg["current"]}:
+        I.set_current(n)
+        I.seti("SetSelectedOutputStringOn", smap.get(str(n), False) if smap else cfg["string_on"])
+        if str(n) in cfg["file_on"]:
+            I.seti("SetSelectedOutputFileOn", cfg["file_on"][str(n)])
+            if cfg["custom_name"].get(str(n)):
+                I.sets("SetSelectedOutputFileName", os.path.join(sd, "so_%d.txt" % n))
+    I.set_current(cfg["current"])
+
+
 def check_case(case, ctx):
     cfg = case["cfg"]
     sd = ctx.scratch_dir()
@@ -285,19 +298,50 @@ def check_case(case, ctx):
     I = lib.fresh("phreeqc.dat", via_shim=True)
     try:
         nums = case["nums"]
-        # switches: common string switch (see known finding), per-number file switches
-        smap = cfg.get("string_on_map")  # only in the registered known-finding replay (DESIGN 9.1)
-        for n in set(nums) | {cfg["current"]}:
-            I.set_current(n)
-            I.seti("SetSelectedOutputStringOn", smap.get(str(n), False) if smap else cfg["string_on"])
-            if str(n) in cfg["file_on"]:
-                I.seti("SetSelectedOutputFileOn", cfg["file_on"][str(n)])
-                if cfg["custom_name"].get(str(n)):
-                    I.sets("SetSelectedOutputFileName", os.path.join(sd, "so_%d.txt" % n))
-        I.set_current(cfg["current"])
+        apply_switches(I, cfg, nums, sd)
         rc = I.run_string(case["input"])
         if rc != 0:
             raise Discard("run_error")
+        info = inspect(I, case, cfg, nums, case["meta"].get("redefined", []), sd, ctx)
+        classes = list(info["classes"])
+        rows = info["rows"]
+        late = info["late"]
+        ndef = info["ndef"]
+        # further runs on the same instance (kind so-multi): the blocks stay defined, every run starts new
+        # rows / a new string / re-opened files, and the same relations must hold after each of them
+        for k, more in enumerate(case.get("more", [])):
+            cfg = dict(cfg)
+            cfg["file_on"] = dict(cfg["file_on"])
+            for n, v in more.get("file_on", {}).items():
+                cfg["file_on"][n] = v
+            if "current" in more:
+                cfg["current"] = more["current"]
+            for f in glob.glob(os.path.join(sd, "*")):
+                os.unlink(f)   # a file that is not re-written by this run must not be mistaken for its output
+            apply_switches(I, cfg, nums, sd)
+            rc = I.run_string(more["input"])
+            if rc != 0:
+                raise Discard("run_error_later")
+            inf2 = inspect(I, case, cfg, nums, more.get("redefined", []), sd, ctx)
+            rows += inf2["rows"]
+            late = late or inf2["late"]
+            classes.append("run%d_rows=%s" % (k + 2, "yes" if inf2["rows"] else "no"))
+        if case.get("more"):
+            classes.append("runs=%d" % (1 + len(case["more"])))
+            if any(m.get("redefined") for m in case["more"]):
+                classes.append("redefined_in_later_run")
+            if any(m.get("file_on") for m in case["more"]):
+                classes.append("file_switch_changed_between_runs")
+        nt = rows > 0 and (ndef >= 2 or case["meta"]["mismatch"] or late)
+        return {"nontrivial": nt, "classes": classes}
+    finally:
+        I.close()
+
+
+def inspect(I, case, cfg, nums, redefined_now, sd, ctx):
+    """all C05 relations for the state after one run; returns counters"""
+    smap = cfg.get("string_on_map")
+    if True:
         defined = I.user_numbers()
         if sorted(defined) != sorted(set(nums)):
             raise Violation("user_numbers", "defined user numbers %r, input defines %r" % (defined, nums))
@@ -364,9 +408,18 @@ def check_case(case, ctx):
             path = fn if os.path.isabs(fn) else os.path.join(sd, fn)
             if want:
                 if not os.path.exists(path):
-                    raise Violation("file", "selected-output file %s of user %d was not written" % (fn, n))
-                F = open(path, "rb").read().decode("latin-1")
-                if n in case["meta"].get("redefined", []):
+                    if T.rows <= 1:
+                        # nothing was punched in this run (e.g. a persisting PRINT -selected_output false): a file
+                        # without any row need not be (re)created; the property relates rows
+                        ctx.event("no_rows_no_file")
+                        F = None
+                    else:
+                        raise Violation("file", "selected-output file %s of user %d was not written" % (fn, n))
+                else:
+                    F = open(path, "rb").read().decode("latin-1")
+                if F is None:
+                    pass
+                elif n in redefined_now:
                     # a redefinition re-opens (truncates) the file: it holds the rows since the last definition
                     if cfg["string_on"] and not S.endswith(F):
                         raise Violation("file_vs_string", "file of redefined user %d is not a suffix of its string" % n)
@@ -403,7 +456,6 @@ def check_case(case, ctx):
             I.set_current(n)
             if table_key(I.table()) != table_key(tables[n]):
                 raise Violation("unchanged", "table %d changed after unknown-user-number reads" % n)
-        nt = info["rows"] > 0 and (len(defined) >= 2 or case["meta"]["mismatch"] or info["late"])
         classes = ["blocks=%d" % len(defined), "string_on=%s" % cfg["string_on"],
                    "files_on=%d" % sum(1 for v in cfg["file_on"].values() if v)]
         if info["late"]:
@@ -414,13 +466,48 @@ def check_case(case, ctx):
             classes.append("current_undefined")
         if info["rows"] == 0:
             classes.append("no_rows")
-        return {"nontrivial": nt, "classes": classes}
-    finally:
-        I.close()
+        I.set_current(cfg["current"])
+        return {"rows": info["rows"], "late": info["late"], "ndef": len(defined), "classes": classes}
+
+
+@st.composite
+def multi_strategy(draw):
+    """a first run that defines the blocks + 1-2 further runs on the same instance that mostly do NOT redefine them
+    (rows, string and files start anew at every run; switches may change between runs)"""
+    case = draw(case_strategy())
+    nums = case["nums"]
+    more = []
+    for k in range(draw(st.integers(1, 2))):
+        parts = []
+        redefined = []
+        for j in range(draw(st.integers(1, 2))):
+            parts.append("USE solution 1")
+            if draw(st.booleans()):
+                parts.append("EQUILIBRIUM_PHASES %d\n Calcite 0 %s" % (10 + k, draw(st.sampled_from(["0", "0.01"]))))
+            steps = draw(st.integers(0, 3))
+            if steps:
+                parts.append("REACTION %d\n NaCl 1\n %s moles in %d steps" % (10 + k, cg.fmt(draw(cg.logu(1e-5, 1e-2, 2))), steps))
+            if nums and draw(st.integers(0, 5)) == 0:
+                n0 = draw(st.sampled_from(nums))
+                if n0 not in redefined:
+                    parts.append(render_block(draw(block(n0))))
+                    redefined.append(n0)
+            parts.append("END")
+        m = {"input": "\n".join(parts) + "\n", "redefined": redefined}
+        if nums and draw(st.integers(0, 2)) == 0:
+            m["file_on"] = {str(n): draw(st.booleans()) for n in draw(st.lists(st.sampled_from(nums), min_size=1, max_size=2, unique=True))}
+        if draw(st.integers(0, 3)) == 0:
+            m["current"] = draw(st.sampled_from(nums + [7, 0])) if nums else 7
+        more.append(m)
+    case = dict(case, kind="so-multi", more=more)
+    # a block redefined in a later run may change its USER_PUNCH shape
+    return case
 
 
 def run(ctx):
-    ctx.hyp(case_strategy(), lambda c: check_case(c, ctx), BUDGET[ctx.tier], "so")
+    n = BUDGET[ctx.tier]
+    ctx.hyp(case_strategy(), lambda c: check_case(c, ctx), n - n // 3, "so")
+    ctx.hyp(multi_strategy(), lambda c: check_case(c, ctx), n // 3, "so-multi")
 
 
 def debug_discards(n=300):
